@@ -1663,7 +1663,8 @@ def optimal_cost_value(variable: Variable, mode: str):
     if hasattr(variable, "cost_for_val"):
         opt_func = min if mode == "min" else max
         best_cost, best_value = opt_func(
-            (variable.cost_for_val(value), value) for value in variable.domain
+            ((variable.cost_for_val(value), value) for value in variable.domain),
+            key=lambda cost_value: cost_value[0],
         )
     else:
         best_value, best_cost = random.choice(variable.domain), None
